@@ -56,6 +56,29 @@ pub enum Ev {
     Respond { put: usize, error: bool, placement: bool },
     /// response naming an id the handler may never have used
     RespondUnknown { id: u64, placement: Option<u64>, error: bool },
+    /// draw into a writer that takes `budget` more bytes and then fails (tty gone, EIO, ...)
+    DrawFailing { img: usize, row: usize, col: usize, budget: usize },
+}
+
+/// Writer that accepts `left` more bytes (short writes included) and then reports an error
+struct FailingWriter {
+    out: Vec<u8>,
+    left: usize,
+}
+
+impl std::io::Write for FailingWriter {
+    fn write(&mut self, buf: &[u8]) -> std::io::Result<usize> {
+        if self.left == 0 && !buf.is_empty() {
+            return Err(std::io::Error::other("injected write failure"));
+        }
+        let n = buf.len().min(self.left);
+        self.out.extend_from_slice(&buf[..n]);
+        self.left -= n;
+        Ok(n)
+    }
+    fn flush(&mut self) -> std::io::Result<()> {
+        Ok(())
+    }
 }
 
 #[derive(Clone, Debug, Serialize, Deserialize)]
@@ -343,6 +366,18 @@ impl Prop for C11 {
             let img = rng.below(pool.len());
             let (row, col) = *rng.pick(&positions);
             let ev = match rng.below(20) {
+                0 if rng.chance(1, 2) => Ev::DrawFailing {
+                    img,
+                    row,
+                    col,
+                    budget: match rng.below(5) {
+                        0 => 0,
+                        1 => rng.range(1, 80),
+                        2 => rng.range(4000, 4300),
+                        3 => rng.range(0, 20000),
+                        _ => rng.range(0, 600),
+                    },
+                },
                 0..=9 => Ev::Draw { img, row, col },
                 10..=13 => Ev::Erase {
                     img,
@@ -451,6 +486,8 @@ impl Prop for C11 {
         for (step, ev) in case.events.iter().enumerate() {
             let mut out: Vec<u8> = Vec::new();
             let source;
+            // the writer failed under this draw: only what it had accepted reached the terminal
+            let mut failed_draw = false;
             // ---- drive the real handler
             match ev {
                 Ev::Draw { img, row, col } => {
@@ -471,6 +508,33 @@ impl Prop for C11 {
                     ctx.feat("ev.draw");
                     ctx.feat_if((*row, *col) == (0, 0), "ev.draw@origin");
                     ctx.feat_if(*row == 65535 || *col == 65535, "ev.draw@65535");
+                }
+                Ev::DrawFailing { img, row, col, budget } => {
+                    let Some((image, cid)) = images.get(*img) else {
+                        continue;
+                    };
+                    if *row > 65535 || *col > 65535 {
+                        ctx.nondeciding = true;
+                        return Ok(());
+                    }
+                    let mut writer = FailingWriter { out: Vec::new(), left: *budget };
+                    let result = handler.draw(&mut writer, image, Position::new(*row, *col));
+                    out = writer.out;
+                    if result.is_err() {
+                        failed_draw = true;
+                        // the terminal executes the commands it received whole; the torn one is
+                        // abandoned together with the chunked transmission it belonged to
+                        let whole = out.windows(2).rposition(|w| w == b"\x1b\\").map(|at| at + 2).unwrap_or(0);
+                        ctx.feat_if(whole > 0, "ev.draw-failing.part-of-output-delivered");
+                        out.truncate(whole);
+                        ctx.feat("ev.draw-failing.writer-error");
+                    } else {
+                        ctx.feat("ev.draw-failing.budget-sufficed");
+                    }
+                    source = Source::Draw {
+                        content: *cid,
+                        pos: (*row, *col),
+                    };
                 }
                 Ev::Erase { img, pos } => {
                     let Some((image, _)) = images.get(*img) else {
@@ -730,6 +794,10 @@ impl Prop for C11 {
                     }
                 }
             }
+            if failed_draw {
+                ctx.feat_if(store.transmission_open(), "ev.draw-failing.transmission-torn");
+                store.abort_transmission();
+            }
             ensure!(
                 !store.transmission_open(),
                 "chunk:last-chunk-has-m=1",
@@ -738,6 +806,7 @@ impl Prop for C11 {
 
             // ---- expectations of the event itself
             match (&source, ev) {
+                (Source::Draw { .. }, _) if failed_draw => {}
                 (Source::Draw { content, pos }, _) => {
                     let (h, w, _) = &contents[*content];
                     if h * w > 0 {
@@ -794,7 +863,7 @@ impl Prop for C11 {
                     },
                     Ev::Erase { pos: Some(_), .. } => "erase:placement-not-removed".into(),
                     Ev::Erase { pos: None, .. } => "erase-all:wrong-placements-removed".into(),
-                    Ev::Draw { .. } => "draw:placements-diverge".into(),
+                    Ev::Draw { .. } | Ev::DrawFailing { .. } => "draw:placements-diverge".into(),
                     _ => "handle:placements-diverge".into(),
                 };
                 let owners: Vec<_> = missing
@@ -868,7 +937,7 @@ impl Prop for C11 {
         if case.pool.len() > 1 {
             let last = case.pool.len() - 1;
             let used = case.events.iter().any(|e| match e {
-                Ev::Draw { img, .. } | Ev::Erase { img, .. } => *img == last,
+                Ev::Draw { img, .. } | Ev::DrawFailing { img, .. } | Ev::Erase { img, .. } => *img == last,
                 _ => false,
             });
             if !used {
